@@ -65,7 +65,7 @@ def main_c01(tier, seed):
     for it in insts:
         rk = ranker_for(it)
         try:
-            _, st = impl_fit(it)
+            _, st = impl_fit(it, reuse=(len(terms) % 2 == 1))   # every other training re-uses an already trained object
         except Exception as ex:  # implementation crashed
             st = dict(error=repr(ex))
         exp = safe_dump(st, rk)
